@@ -506,7 +506,7 @@ PROPS = {
     },
     "C20": {
         "level": "proof",
-        "rule": "one .chalk program per case: a fixed prelude (structs L0, L1<T> local; U0, U1<T>, U2<T,U> #[upstream]; F1<T>, F2<T,U> #[upstream] "
+        "rule": "150 programs (thorough 6000) with 2-4 impls of local and upstream traits in random order: the orphan_check QUERY (loop over local_impl_ids in chalk-integration/src/query.rs, as checked_program runs it) must accept exactly when every local impl passes perform_orphan_check on its own; one .chalk program per case: a fixed prelude (structs L0, L1<T> local; U0, U1<T>, U2<T,U> #[upstream]; F1<T>, F2<T,U> #[upstream] "
                 "#[fundamental]; LF1<T> local #[fundamental]; traits LT0..LT2 local, UT0..UT2 #[upstream]) plus ONE impl with 1-3 type arguments (Self first). "
                 "Tables (exhaustive=true in the thorough tier): remote trait with 1 argument over all 2705 types of depth <= 2, with 2 and with 3 "
                 "arguments over all types of depth <= 1 (50^2, 50^3), built from leaves L0, U0, u32, P0 (impl parameter), () and constructors L1<_>, "
